@@ -29,11 +29,16 @@ EXHAUSTIVE = {"quick": False, "thorough": False}
 
 
 def floors(tier):
+    return _floors(tier, {"C02:raising-save-leaves-destination": 10})
+
+
+def _floors(tier, extra):
     f = {"evals": {"decode": 8000, "decode.file": 500, "agreement": 1500}, "classes": {}}
     for fmt in TC.FORMATS:
         f["classes"]["C02:spec-reader:%s" % fmt] = 500
     for c in ("keyword", "quote", "newline", "override-above", "override-below", "partition-checked", "point-tier", "exponent-number", "sliver-structure"):
         f["classes"]["C02:%s" % c] = 50
+    f["classes"].update(extra)
     return f
 
 
@@ -122,6 +127,8 @@ def domain_ok(data, fmt, blanks, minT, maxT, thr):
     hi = data["max"] if maxT is None else maxT
     if not TC.collapse_free(dict(s, min=min(lo, data["min"]), max=max(hi, data["max"]))) or not TC.collapse_free(dict(s, min=lo, max=hi)) or not lo < hi:
         return "near-integer-rule-would-merge-distinct-timestamps"
+    if blanks and thr is not None and hi - lo < thr:
+        return "requested-span-shorter-than-minimum-interval-length"  # no partition without a sub-threshold element exists
     return None
 
 
@@ -185,12 +192,36 @@ def _save_pre(ctx):
     if s["keys"] != [t["name"] for t in s["tiers"]] or domain_ok(data, *args):
         REC.skip("decode.file", "outside-domain")
         return SKIP
-    return (data,) + args + (ctx.arg(0, "fn"),)
+    fn = ctx.arg(0, "fn")
+    try:
+        before = open(fn, "rb").read()
+    except OSError:
+        before = None
+    return (data,) + args + (fn, before)
 
 
 def _save_post(ctx):
-    data, fmt, blanks, minT, maxT, thr, fn = ctx.pre
+    data, fmt, blanks, minT, maxT, thr, fn, before = ctx.pre
     if ctx.exc is not None:
+        # "every file produced by save is a well-formed document": a save that raises may leave the destination as it was, or
+        # absent; whatever else it leaves behind is a file produced by save and has to decode
+        try:
+            now = open(fn, "rb").read()
+        except OSError:
+            now = None
+        case = {"call": "failing-save", "tg": snap_like(data), "format": fmt, "blanks": blanks, "minT": minT, "maxT": maxT, "thr": thr,
+                "had_file": before is not None}
+        sig = ("failing-save", fmt, before is not None)
+        if now is None or now == before:
+            REC.held("decode.file", sig, "C02:raising-save-leaves-destination", case)
+            return
+        try:
+            PT.read_any(now.decode("utf-8"), fmt)
+            REC.held("decode.file", sig, "C02:raising-save-leaves-destination", case)
+        except Exception as e:
+            REC.violation(PROP, "decode.file", "save", case, "save raised %s and left %d bytes at the destination (%s before) that do not decode as a %s document: %s" % (
+                type(ctx.exc).__name__, len(now), "%d bytes" % len(before) if before is not None else "no file", fmt, str(e)[:120]),
+                sig, {"format": fmt, "failing_save": True})
         return
     try:
         raw = open(fn, "rb").read()
@@ -288,6 +319,11 @@ def workload(tier, rng, shard, nshards, work):
                     if k % 7 == 0:
                         fn = os.path.join(str(work), "w%d" % (k % 3))
                         call(tg.save, fn, fmt, blanks, minT, maxT, thr, "silence")
+                        ilast = max([t["entries"][-1][1] for t in data["tiers"] if t["t"] == "I" and t["entries"]] + [data["min"]])
+                        if ilast > data["min"] and k % 3 != 0:  # a save that cannot succeed: the requested end cuts an entry
+                            cut = (ilast + data["min"]) / 2
+                            if cut > data["min"]:
+                                call(tg.save, fn if k % 2 == 0 else fn + "_new", fmt, True, None, cut, thr, "silence")
                     else:
                         call(textgrid_io.getTextgridAsStr, _tgToDictionary(tg), fmt, blanks, minT, maxT, thr)
             agreement(tg, data, True, None if tiny else 1e-8)
@@ -325,7 +361,13 @@ def replay(v, work):
     with contextlib.redirect_stdout(io.StringIO()):
         with core.paused():
             tg = snap.build_tg(c["tg"])
-        if c["call"] == "agreement":
+        if c["call"] == "failing-save":
+            fn = os.path.join(str(work), "replay_dest")
+            if c["had_file"]:
+                with core.paused():
+                    tg.save(fn, c["format"], False, None, None, None, "silence")
+            call(tg.save, fn, c["format"], c["blanks"], c["minT"], c["maxT"], c["thr"], "silence")
+        elif c["call"] == "agreement":
             agreement(tg, {"min": c["tg"]["min"], "max": c["tg"]["max"], "tiers": [dict(t, entries=[tuple(e) for e in t["entries"]]) for t in c["tg"]["tiers"]]}, c["blanks"], c["thr"])
         else:
             call(textgrid_io.getTextgridAsStr, _tgToDictionary(tg), c["format"], c["blanks"], c["minT"], c["maxT"], c["thr"])
